@@ -17,6 +17,9 @@
 //                               A<a>:<src> write port without IF (always enabled)
 //                               V<a>:<src> write port with wrEnable (IF) and an additional `enable` pin (pp=0 only)
 //                               <src> = p (data pin)  |  r<k>+ / r<k>^  (async data of the k-th read port  op  data pin)
+//                               W<a>:<src>:<mode><k><rel><x>  write enable computed from read data: cond = (async data of read port k)
+//                                 <rel> x, rel = l (<) e (==) n (!=), x = d (the data pin) or a decimal constant;
+//                                 mode o: IF(cond) (no enable pin, logged as 1), a: IF(pin & cond), r: IF(pin | cond)
 //   clk: first char P = initializeMemory (power-on contents honoured) / - ; second char S = memoryResetType
 //        SYNCHRONOUS (reset logic initialises the memory after postprocessing) / N = NONE
 //
@@ -49,6 +52,12 @@ struct PortDesc {
 	int addrPin = 0;
 	int rmwSrc = -1;   // index among read ports
 	char op = 'p';     // p + ^
+	// data dependent write enable (third ':' field  <mode><k><rel><operand>):
+	char condMode = '-';   // o: IF(cond)   a: IF(pin & cond)   r: IF(pin | cond)
+	int condSrc = 0;       // read port whose asynchronous data is compared
+	char condRel = 'l';    // l: elem < x   e: elem == x   n: elem != x
+	bool condData = false; // x = the port's data pin (else the constant)
+	uint64_t condConst = 0;
 };
 
 struct Case {
@@ -78,6 +87,11 @@ std::vector<PortDesc> parsePorts(const std::string &s)
 		if (parts.size() > 1 && !parts[1].empty() && parts[1][0] == 'r') {
 			p.rmwSrc = atoi(parts[1].c_str() + 1);
 			p.op = parts[1].back();
+		}
+		if (parts.size() > 2 && parts[2].size() >= 4) {
+			const std::string &c = parts[2];
+			p.condMode = c[0]; p.condSrc = c[1] - '0'; p.condRel = c[2];
+			if (c[3] == 'd') p.condData = true; else p.condConst = strtoull(c.c_str() + 3, nullptr, 10);
 		}
 		ps.push_back(p);
 	}
@@ -222,10 +236,21 @@ void runCase(const Case &cs, std::ostream &out)
 			if (p.kind == 'A') {
 				mem[addrPins[p.addrPin]] = data;
 			} else {
-				w.hasEn = true;
-				w.en = pinIn().setName("e" + std::to_string(wi));
+				Bit enable;
+				if (p.condMode != 'o') {
+					w.hasEn = true;
+					w.en = pinIn().setName("e" + std::to_string(wi));
+					enable = w.en;
+				}
+				if (p.condMode != '-') {
+					if ((size_t)p.condSrc >= rdAsync.size()) throw std::runtime_error("enable source read port not declared before the write port");
+					UInt rhs = p.condData ? UInt(w.din) : UInt(ConstUInt(p.condConst, BitWidth(width)));
+					const UInt &elem = rdAsync[p.condSrc];
+					Bit cond = p.condRel == 'l' ? Bit(elem < rhs) : p.condRel == 'e' ? Bit(elem == rhs) : Bit(elem != rhs);
+					enable = p.condMode == 'o' ? cond : p.condMode == 'a' ? Bit(w.en & cond) : Bit(w.en | cond);
+				}
 				hlim::Node_MemPort *wp = nullptr;
-				IF (w.en)
+				IF (enable)
 					wp = mem[addrPins[p.addrPin]].write(data);
 				if (p.kind == 'V') {
 					w.hasEn2 = true;
@@ -323,13 +348,16 @@ void runCase(const Case &cs, std::ostream &out)
 		}
 		for (size_t t = 0; t < ncyc; t++) {
 			std::string kind = stimKind;
+			bool scanning = false;
+			if (kind == "scan") { scanning = t <= depth; kind = scanning ? "scan" : (((t / phaseLen) % 2) ? "hot" : "rand"); }
 			if (kind == "mix") { static const char *ks[] = { "rand", "hot", "b2b", "oor", "rand" }; kind = ks[(t / phaseLen) % 5]; }
 			Stim s;
 			uint64_t common = rng.below(amax);
 			if (kind == "b2b") { if (t % 2 == 0) walk = (walk + 1 + rng.below(2)) % depth; }
 			for (int i = 0; i < nAddr; i++) {
 				uint64_t a;
-				if (kind == "rand") a = rng.below(amax);
+				if (kind == "scan") a = t % depth;   // every word is read (in order) before the pins enable any write
+				else if (kind == "rand") a = rng.below(amax);
 				else if (kind == "inr") a = rng.below(depth);
 				else if (kind == "hot") a = rng.below(4) ? hot[rng.below(2)] : rng.below(depth);
 				else if (kind == "b2b") a = rng.below(4) ? walk : rng.below(depth);
@@ -349,6 +377,7 @@ void runCase(const Case &cs, std::ostream &out)
 				std::array<std::string, 3> w;
 				w[0] = wrPins[i].hasEn ? (rng.below(8) < (kind == "hot" || kind == "b2b" ? 6 : 4) ? "1" : "0") : "1";
 				if (xs && wrPins[i].hasEn && rng.below(10) == 0) w[0] = "X";
+				if (scanning && wrPins[i].hasEn) w[0] = "0";
 				w[1] = randBits(rng, width, xs);
 				w[2] = wrPins[i].hasEn2 ? (xs && rng.below(10) == 0 ? "X" : (rng.below(4) ? "1" : "0")) : "1";
 				s.wr.push_back(w);
